@@ -105,7 +105,16 @@ def d1(ctx, F):
     if not ctx.check(len(oks) >= 1, "C11.D1.ok-sites", "handle_stream:no-ok", "handle_stream acknowledges with Frame::Ok", hs.span):
         return
     hand = [a for a in flow.awaits(hs) if a.source is not None and strip_generics(a.source.callee) == "selium_server::topic::Sender::send"]
-    ctx.floor("C11.D1.hand-overs", len(hand), 4)
+    ctx.floor("C11.D1.hand-overs", len(hand), 1)
+    # every kind of registration is handed over: the four socket shapes are built and each flows into a hand-over
+    socks = [(pl, rv, s) for i, j, pl, rv, s in hs.assigns() if rv["k"] == "agg" and rv.get("agg") == "adt" and
+             rv.get("adt") in ("selium_server::topic::pubsub::Socket", "selium_server::topic::reqrep::Socket")]
+    kinds = sorted({rv["variant"] for pl, rv, s in socks})
+    ctx.check(kinds == ["Client", "Server", "Sink", "Stream"], "C11.D1.hand-over-kinds", "handle_stream:socket-kinds", "publisher, subscriber, replier and requestor sockets are all built (%s)" % kinds, hs.span)
+    for pl, rv, s in socks:
+        dv = flow.derived(hs, {pl["l"]}, calls="all")
+        ctx.check(any(any(op_local(a) in dv for a in h.source.args) for h in hand), "C11.D1.hand-over-kinds", "handle_stream:socket-not-handed-over:%s" % rv["variant"],
+                  "the %s socket is handed to the topic's queue" % rv["variant"], s.get("span", hs.span))
     rets = hs.returns()
     unreachable_rule, some_set = d7_unreachable(F, hs)
     ok_sent = {}
@@ -228,6 +237,7 @@ def d2(ctx, F):
 def d3(ctx, F):
     hr = F.one_body(r"^selium::streams::handle_reply::\{closure#0\}$")
     ctx.touch(hr)
+    hr = F.inlined(hr)          # error-building helpers are looked through
     sws = K.find_variant_switches(hr, FRAME)
     if not ctx.check(len(sws) == 1, "C11.D3.client-maps-reply", "handle_reply:shape", "handle_reply matches once on the frame kind", hr.span):
         return
@@ -238,11 +248,15 @@ def d3(ctx, F):
     errs = [(i, rv, s) for i, j, p2, rv, s in K.aggregates(hr, "selium_std::errors::SeliumError", arms.get("Error", set())) if rv["variant"] == "OpenStream"]
     payload = {p2["l"] for i, j, p2, rv, s in hr.assigns() if rv["k"] == "use" and rv["op"].get("k") in ("copy", "move") and any(isinstance(e, dict) and e.get("vn") == "Error" for e in rv["op"]["pl"]["p"])}
     good = bool(errs)
+    ep = F.adt("selium_protocol::frame::ErrorPayload")
+    cidx = [f["name"] for f in ep["variants"][0]["fields"]].index("code")
+    def code_place(pl_):
+        return "ErrorPayload" in hr.local_ty(pl_["l"]) and [e for e in pl_["p"] if isinstance(e, int)][-1:] == [cidx]
     for i, rv, s in errs:
         o = rv["ops"][0]
         r = flow.root(hr, o)
-        fromp = (o.get("k") in ("copy", "move") and o["pl"]["l"] in payload and [e for e in o["pl"]["p"] if isinstance(e, int)] == [0]) or \
-                (r[0] == "rv" and r[1]["k"] == "use" and r[1]["op"]["pl"]["l"] in payload and [e for e in r[1]["op"]["pl"]["p"] if isinstance(e, int)] == [0])
+        fromp = (o.get("k") in ("copy", "move") and code_place(o["pl"])) or \
+                (r[0] == "rv" and r[1]["k"] == "use" and r[1]["op"].get("k") in ("copy", "move") and code_place(r[1]["op"]["pl"]))
         good &= fromp
     ctx.check(good, "C11.D3.client-maps-reply", "handle_reply:error-code-lost", "a Frame::Error refusal is reported as OpenStream(payload.code, ..)", hr.span)
     noks = [b for b in okb if b in arms.get("Error", set())]
@@ -250,8 +264,9 @@ def d3(ctx, F):
     # every open_stream goes through handle_reply
     opens = [b for p, b in sorted(F.bodies.items()) if p.startswith("selium::streams::") and "open_stream::{closure#0}" in p]
     ctx.floor("C11.D3.open_stream-sites", len(opens), 4)
-    for b in opens:
-        ctx.touch(b)
+    for b0 in opens:
+        ctx.touch(b0)
+        b = F.inlined(b0, keep=("selium::streams::handle_reply", "selium::streams::handle_reply::{closure#0}"))        # a shared "open and register" helper is looked through
         c = b.calls_to("selium::streams::handle_reply")
         ok = False
         aw = [a for a in flow.awaits(b) if c and a.source is c[0]]
